@@ -745,6 +745,13 @@ def translate(specs, src_root: Path, header: str):
         if fn is None:
             raise TranslateError(f"{sp.file}: function {sp.name} not found")
         sp._fn = fn
+        # a decorator changes what the name denotes (a memo hands out shared storage, a wrapper may do anything): only
+        # the JIT decorators, which keep the meaning of the body, are read through
+        for dec in fn.decorator_list:
+            dsrc = ast.unparse(dec)
+            if not (dsrc.startswith(("numba.", "njit", "jit", "nb.")) or dsrc in ("staticmethod",)):
+                raise TranslateError(f"{sp.file}:{sp.name}: decorator `{dsrc[:60]}` is outside the translated subset "
+                                     "(the function is no longer just its body)")
         # python parameters must all be accounted for
         for a in fn.args.args:
             if a.arg not in sp.pyparams and a.arg not in dict(sp.params) and a.arg not in sp.given | sp.absent \
